@@ -456,6 +456,7 @@ func (r *db) removeNodeData(shardID uint64, replicaID uint64) error {
 		return err
 	}
 	r.cs.setMaxIndex(shardID, replicaID, 0)
+	r.cs.removeNode(shardID, replicaID)
 	return r.removeEntriesTo(shardID, replicaID, math.MaxUint64)
 }
 
